@@ -193,7 +193,7 @@ Definition type_count (b : bindparam) : nat := match b.(bp_kind) with KTuple k =
 Definition is_tuple_type (b : bindparam) : bool := match b.(bp_kind) with KTuple _ => true | _ => false end.
 Definition is_null_type (b : bindparam) : bool := match b.(bp_kind) with KNull => true | _ => false end.
 
-Definition key := (N * N)%type.     (* "name_i" = (i, 0) ; "name_i_j" = (i, j) *)
+Notation key := (N * N)%type.     (* "name_i" = (i, 0) ; "name_i_j" = (i, j) *)
 Definition key_eqb (a b : key) : bool := N.eqb (fst a) (fst b) && N.eqb (snd a) (snd b).
 (* bind_template % {"name": name}: "?" for positional dialects *)
 Definition render_bindtemplate (d : dialect) (k : key) : tok :=
@@ -683,3 +683,42 @@ Definition ctx_value (p : position) (row : N -> sv) (t : tv) : tv :=
   | PosAnd a b => and3 (not3 (eq3 (row 0%N) (SInt a))) (and3 t (not3 (eq3 (row 0%N) (SInt b))))
   | PosOr a => or3 (eq3 (row 0%N) (SInt a)) t
   end.
+
+(* ------------------------------------------------------------------------------------------ *)
+(** * Side conditions of the theorems *)
+(* reachable expressions: in_() / not_in() / text forms and any number of ~ keep [consistent] *)
+Definition consistent (e : inexpr) : bool :=
+  match e.(ie_bind).(bp_expand_op) with
+  | None => true
+  | Some o => inop_eqb o e.(ie_op) && negb e.(ie_text)
+  end && inop_eqb e.(ie_negate) (negate_op e.(ie_op)).
+
+Definition all_scalar (vals : list value) : bool := forallb (fun v => negb (is_sequence v)) vals.
+Definition all_tuple (k : nat) (vals : list value) : bool :=
+  forallb (fun v => match v with VTuple l => Nat.eqb (length l) k | VScalar _ => false end) vals.
+Definition is_nil {A} (l : list A) : bool := match l with [] => true | _ => false end.
+
+(* the values fit the left operand: scalars for a column; k-tuples for a row value of arity k >= 1.
+   (An untyped row-value operand with an EMPTY list is excluded: the code cannot know its arity.) *)
+Definition wf (e : inexpr) (vals : list value) : bool :=
+  match e.(ie_left), e.(ie_bind).(bp_kind) with
+  | LCol _, KScalar | LCol _, KNull => all_scalar vals
+  | LTuple cs, KTuple k => Nat.eqb (length cs) k && Nat.leb 1 k && all_tuple k vals
+  | LTuple cs, KNull => Nat.leb 1 (length cs) && all_tuple (length cs) vals && negb (is_nil vals)
+  | _, _ => false
+  end.
+
+(* the dialect can render an empty set for this parameter (documented NotImplementedError otherwise) *)
+Definition empty_ok (d : dialect) (e : inexpr) (vals : list value) : bool :=
+  match vals with
+  | [] => match visit_empty_set_op_expr d (type_count e.(ie_bind)) e.(ie_bind).(bp_expand_op) with
+          | Ok _ => true | Raise _ => false end
+  | _ => true
+  end.
+
+(* literal rendering: outside the two defective regions
+   (a) empty list for a tuple type on a dialect with tuple_in_values ("VALUES SELECT ..."),
+   (b) tuple values for a NullType parameter (AttributeError) *)
+Definition literal_guard (d : dialect) (e : inexpr) (vals : list value) : bool :=
+  negb (is_tuple_type e.(ie_bind) && is_nil vals && d.(d_tuple_in_values))
+  && negb (is_null_type e.(ie_bind) && tuple_branch e.(ie_bind) vals).
